@@ -87,6 +87,8 @@ def generate(seed, stratum, tier):
   picks = rng.sample(range(1, len(CONFIGS)), k)
   sc['configs'] = [0] + sorted(picks)
   sc['mix'] = rng.randrange(1 << 30)
+  if rng.random() < 0.4:
+    sc['uid_kind'] = 'int'      # the events carry a number as payload, not a string
   return sc
 
 
